@@ -40,7 +40,7 @@ Proof.
   destruct (r_form r) eqn:Hf.
   - injection Hst as <-. cbn. unfold form_files in *. now rewrite Hf in *.
   - unfold form_files in Hi. rewrite Hf in Hi.
-    destruct (negb (rq_multipart (r_desc r))); [injection Hst as <-; cbn; unfold form_files; now rewrite Hf|].
+    destruct (negb (parsable (r_desc r))); [injection Hst as <-; cbn; unfold form_files; now rewrite Hf|].
     destruct (r_stream r).
     + destruct (r_consumed r); [injection Hst as <-; cbn; unfold form_files; now rewrite Hf|].
       destruct (negb (rq_wellformed (r_desc r))); [injection Hst as <-; cbn; rewrite ?count_occ_app in *; cbn in *; lia|].
@@ -59,7 +59,7 @@ Lemma fwl_detached l r disk det s' :
 Proof.
   unfold form_with_limit. intros Hst. cbn [c_disk c_detached] in Hst.
   destruct (r_form r); [injection Hst as <-; reflexivity|].
-  destruct (negb (rq_multipart (r_desc r))); [injection Hst as <-; reflexivity|].
+  destruct (negb (parsable (r_desc r))); [injection Hst as <-; reflexivity|].
   destruct (r_stream r).
   - destruct (r_consumed r); [injection Hst as <-; reflexivity|].
     destruct (negb (rq_wellformed (r_desc r))); [injection Hst as <-; reflexivity|].
@@ -77,7 +77,7 @@ Lemma fwl_limit_exceeded l r disk det s' : 0 < l -> l < rq_len (r_desc r) -> r_f
 Proof.
   unfold form_with_limit, cur_files. intros Hl Hlen Hf Hst. cbn [c_disk c_detached] in Hst. rewrite Hf in Hst.
   assert (form_files r = []) as Hff by (unfold form_files; now rewrite Hf).
-  destruct (negb (rq_multipart (r_desc r))); [injection Hst as <-; cbn; auto|].
+  destruct (negb (parsable (r_desc r))); [injection Hst as <-; cbn; auto|].
   destruct (r_stream r).
   - destruct (r_consumed r); [injection Hst as <-; cbn; auto|].
     destruct (negb (rq_wellformed (r_desc r))); [injection Hst as <-; cbn; auto|].
@@ -102,7 +102,7 @@ Proof.
   destruct s as [p disk det]. cbn [c_ph c_disk c_detached] in *.
   destruct e as [d|o| |keep|]; [|destruct o as [|l| | | |]| | |]; destruct p as [|r|]; cbn [cstep c_ph] in Hst; try discriminate.
   - (* dispatch *)
-    destruct (sc_preparse c && rq_clpos d && rq_multipart d).
+    destruct (sc_preparse c && rq_clpos d && preparse_ok d).
     + unfold rmf in Hst. destruct (rq_wellformed d); cbn [negb] in Hst.
       * destruct (rq_short d); injection Hst as <-; cbn; rewrite ?cnt_remove_all, ?count_occ_app in *; cbn in *; lia.
       * injection Hst as <-. cbn. rewrite ?count_occ_app in *. cbn in *. lia.
@@ -154,7 +154,7 @@ Proof.
     destruct s as [p disk det]. destruct e as [d|o| |keep|]; [|destruct o as [|l| | | |]| | |]; destruct p as [|r|];
       cbn [cstep c_ph] in Hst; try discriminate;
       try (exfalso; apply Hnt; now left); try (injection Hst as <-; reflexivity).
-    + destruct (sc_preparse c && rq_clpos d && rq_multipart d).
+    + destruct (sc_preparse c && rq_clpos d && preparse_ok d).
       * unfold rmf in Hst. destruct (rq_wellformed d); cbn [negb] in Hst; [destruct (rq_short d)|]; injection Hst as <-; reflexivity.
       * destruct (rq_short d); [destruct (sc_stream c); [discriminate|]|]; injection Hst as <-; reflexivity.
     + now apply fwl_detached in Hst.
